@@ -585,6 +585,8 @@ pub enum C19Case {
     /// the bedtobigbed tool reading the BED from standard input (spelling 0..3 of the input
     /// argument), with --autosql (schema idx) or without
     ToolStdin { idx: Option<usize>, spelling: usize, extra: usize },
+    /// the Python binding: write(..., autosql=) then sql(); sql() on an encoder-written file
+    Py { idx: Option<usize>, extra: usize },
 }
 
 const STDIN_SPELLINGS: [&str; 3] = ["-", "stdin", "/dev/stdin"];
@@ -791,6 +793,12 @@ impl Check for C19 {
                 v.push(C19Case::ToolStdin { idx: Some(idx), spelling, extra: 1 });
             }
         }
+        for idx in 0..supplied_schemas().len() {
+            v.push(C19Case::Py { idx: Some(idx), extra: 1 + idx % 3 });
+        }
+        for extra in [0usize, 2] {
+            v.push(C19Case::Py { idx: None, extra });
+        }
         for extra in [0usize, 1, 2, 9] {
             for spelling in 0..STDIN_SPELLINGS.len() {
                 v.push(C19Case::ToolStdin { idx: None, spelling, extra });
@@ -859,6 +867,14 @@ impl Check for C19 {
             C19Case::ToolSupplied { idx } => {
                 let (text, n) = supplied_schemas()[*idx].clone();
                 crate::clifam::c19_tool(1, Some((text, n)), 2, out)
+            }
+            C19Case::Py { idx, extra } => {
+                let schema = idx.map(|i| {
+                    let (t, n) = supplied_schemas()[i].clone();
+                    let ndecl = if t.starts_with("simple") || t.starts_with("object") { 2 } else { 1 };
+                    (t, n, ndecl)
+                });
+                crate::pyfam::c19_py(schema, *extra, out)
             }
             C19Case::ToolStdin { idx, spelling, extra } => {
                 let supplied = idx.map(|i| supplied_schemas()[i].clone());
